@@ -128,7 +128,10 @@ def and_b(ir, instr, a, b):
     e, arg1, arg2 = mng_autoinc(a, b, 8)
     arg1, arg2 = arg1[:8], arg2[:8]
     res = arg1 & arg2
-    e.append(ExprAssign(b, res.zeroExtend(16)))
+    if isinstance(b, ExprMem):
+        e.append(ExprAssign(ExprMem(b.arg, 8), res))
+    else:
+        e.append(ExprAssign(b, res.zeroExtend(16)))
 
     e += [ExprAssign(zf, ExprOp('FLAG_EQ_AND', arg1, arg2))]
     e += [ExprAssign(nf, ExprOp("FLAG_SIGN_SUB", res, ExprInt(0, res.size)))]
@@ -219,7 +222,10 @@ def add_b(ir, instr, a, b):
         arg2 = arg2[:8]
     arg1 = arg1[:8]
     res = arg2 + arg1
-    e.append(ExprAssign(b, res))
+    if isinstance(b, ExprMem):
+        e.append(ExprAssign(ExprMem(b.arg, 8), res))
+    else:
+        e.append(ExprAssign(b, res.zeroExtend(16)))
 
     e += update_flag_arith_add_zn(arg2, arg1)
     e += update_flag_add_cf(arg2, arg1, res)
